@@ -190,6 +190,27 @@ theorem C17_graph_roundtrip_cert (g : Graph) (r : Nat) (d : List Nat) (hwf : wfB
     ∃ f fr h' r' β, save g r = some (f, fr) ∧ load f fr = some (h', r') ∧ β r = r' ∧ IsoOn loadP g r h' β :=
   C17_graph_roundtrip g r (WF_of_wfB hwf) (closed_of_cert (WF_of_wfB hwf) hcert hr) (lateAcyclic_of_cert hcert hr)
 
+/-- Shapes of well-formed nodes (what the reflection of Python objects produces): the loader's child
+selection succeeds and returns a permutation of the stored children for lists/tuples/sets with entries
+named `0 … len-1`, for every simple dict, for a general dict with children "keys", "values", and for every
+leaf / instance / reduce / range node. -/
+theorem C17_graph_wf_nodes (l : Label) (cs : List Nat) (ks : Kids) (a b : Nat) :
+    ((l.kind = .list ∨ l.kind = .tuple ∨ l.kind = .set) → l.len = cs.length →
+        ordLoad l (namedFrom 0 cs) = some (namedFrom 0 cs))
+    ∧ (l.kind = .dictS → ∃ ks', ordLoad l ks = some ks' ∧ ks'.Perm ks)
+    ∧ (l.kind = .dictG → ordLoad l [(.key "keys", a), (.key "values", b)] = some [(.key "keys", a), (.key "values", b)])
+    ∧ ((l.kind = .leaf ∨ l.kind = .inst ∨ l.kind = .reduce ∨ l.kind = .other) → ordLoad l ks = some ks) := by
+  refine ⟨?_, ?_, ?_, ?_⟩
+  · intro hk hlen
+    have := idxKids_namedFrom cs 0 [] (by simp)
+    rcases hk with hk | hk | hk <;> simp only [ordLoad, hk, hlen] <;> simpa using this
+  · intro hk
+    exact ⟨sortByName ks, by simp [ordLoad, hk], sortByName_perm ks⟩
+  · intro hk
+    simp [ordLoad, hk, lookupName]
+  · intro hk
+    rcases hk with hk | hk | hk | hk <;> simp [ordLoad, hk]
+
 /-! ### non-vacuity and concrete tests (`decide`d runs of the executable model) -/
 
 namespace TenpyModel.C17.Examples
